@@ -415,19 +415,29 @@ def _lit(x):
 
 
 def _stray_cr(obs, exp):
-    """C01 signature: same parts, and every differing payload is the expected one plus one CR"""
-    try:
-        if obs["status"] != "ok" or exp["status"] != "ok" or len(obs["parts"]) != len(exp["parts"]):
+    """C01 signature: observed and expected have the same shape, and every differing str/bytes leaf is
+    the expected one plus exactly one trailing CR"""
+    diffs = []
+
+    def walk(a, b):
+        if type(a) is not type(b):
             return False
-        diff = 0
-        for a, b in zip(obs["parts"], exp["parts"]):
-            if a[:-1] != b[:-1]:
-                return False
-            if a[-1] != b[-1]:
-                if a[-1] != b[-1] + b"\r":
-                    return False
-                diff += 1
-        return diff > 0
+        if isinstance(a, (list, tuple)):
+            return len(a) == len(b) and all(walk(x, y) for x, y in zip(a, b))
+        if isinstance(a, dict):
+            return a.keys() == b.keys() and all(walk(a[k], b[k]) for k in a)
+        if a == b:
+            return True
+        if isinstance(a, bytes) and a == b + b"\r":
+            diffs.append(1)
+            return True
+        if isinstance(a, str) and a == b + "\r":
+            diffs.append(1)
+            return True
+        return False
+
+    try:
+        return walk(obs, exp) and bool(diffs)
     except Exception:  # noqa: BLE001
         return False
 
